@@ -47,6 +47,8 @@ def cases(tier, seed):
         for shape in ("map-map", "zip-map", "flat-map"):
             out.append({"name": "fut.chain/%s/%s" % (entry, shape), "kind": "chain", "entry": entry, "shape": shape,
                         "cap": 12 if tier == "quick" else None})
+    for entry in F_ENTRIES:
+        out.append({"name": "fut.reentrant/%s" % entry, "kind": "reentrant", "entry": entry})
     for entry in ("sync", "pool", "f_return", "f_return_error", "f_return_cancelled"):
         out.append({"name": "fut.simple/%s" % entry, "kind": "simple", "entry": entry})
     nf = 24 if tier == "quick" else 2000
@@ -60,7 +62,7 @@ def cases(tier, seed):
 class Entry(object):
     """Creates the future under test and knows how to end its underlying work."""
 
-    def __init__(self, ctx, name):
+    def __init__(self, ctx, name, pre=None):
         ME = instr.ME
         F = ME.futures
         self.name = name
@@ -69,6 +71,8 @@ class Entry(object):
         self.me = None
         if name.startswith("f_"):
             ins = self.ins = [SpyFuture("in%d" % i) for i in range(3)]
+            if pre is not None:
+                pre(ins)  # e.g. done-callbacks the user registered on the inputs before combining them
             if name == "f_map":
                 self.f = F.f_map(ins[0], lambda x: ("m", x))
                 self.ins = ins[:1]
@@ -420,6 +424,60 @@ def run_chain(case, res):
             return
 
 
+def run_reentrant(case, res):
+    """Operations on the future under test issued from done-callbacks of its own inputs (same thread, inside the
+    library's call into the input): cancel / add_done_callback / done() re-enter the future while one of its own
+    operations is in progress."""
+    for when in ("before", "after"):
+        for inner in ("cancel", "add_cb", "cancel+add_cb"):
+            for outer in ("cancel", "inner_cancel", "value", "exc"):
+                begin("vt")
+                ctx = Ctx()
+                try:
+                    box = {}
+
+                    def reenter(_f):
+                        p = box.get("p")
+                        if p is None:
+                            return
+                        if "cancel" in inner:
+                            p.cancel("reentrant")
+                        if "add_cb" in inner:
+                            box["n"] = box.get("n", 0) + 1
+                            p.add_cb("reentrant-cb%d" % box["n"])
+
+                    def pre(ins):
+                        for s_ in ins:
+                            s_.add_done_callback(reenter)
+                    e = Entry(ctx, case["entry"], pre=pre if when == "before" else None)
+                    if when == "after":
+                        for s_ in e.ins:
+                            s_.add_done_callback(reenter)
+                    p = Probe(e.f)
+                    p.add_cb("pre")
+                    box["p"] = p
+                    if outer == "cancel":
+                        p.cancel("outer")
+                    else:
+                        e.complete(outer)
+                    instr.advance(0.5)
+                    e.complete("value")
+                    instr.advance(0.5)
+                    p.add_cb("post")
+                    res.execs += 1
+                    check_common(res)
+                    label = "reentrant/%s/%s/%s/%s" % (case["entry"], when, inner, outer)
+                    if p.judge(res, label):
+                        res.key(label)
+                    else:
+                        res.count("foreign.future_still_pending")
+                    res.sample({"entry": case["entry"], "callback_registered": when + " the combinator call", "callback_does": inner,
+                                "outer_operation": outer, "cancel_returns": [repr(c[2]) for c in p.cancels],
+                                "final": outcome_repr(outcome(e.f))}, limit=1)
+                finally:
+                    end(ctx)
+
+
 def run_pairs(case, res):
     rng = random.Random("c02/%s/%s" % (case["seed"], case["name"]))
     for a, b in itertools.permutations(OPS, 2):
@@ -608,6 +666,8 @@ def run_case(case, res):
         run_pairs(case, res)
     elif k == "chain":
         run_chain(case, res)
+    elif k == "reentrant":
+        run_reentrant(case, res)
     elif k == "simple":
         run_simple(case, res)
     elif k == "waiters":
